@@ -98,6 +98,16 @@ def rule_thread_marker(repo, chk):
             chk.ob('h', f.ref, 'the previous marker is restored on every exit, also an exceptional one', p is None and bool(others), loc(f, st.ast),
                    path=pat.path_lines(p, st) if p else None, discr=f'marker-restored:{qual.split(".")[1]}')
     need(n_sites >= 2, f'C05.h: {n_sites} handler-running sites, 2 confirmed by hand')
+    # tick() may be called from inside a step of a generator handler (directly, through stop() in a hand-driven loop, through a flush the step makes): stepping that very
+    # generator again raises "generator already executing", which the stepper books as the handler having finished
+    t = repo.func(MANAGER, 'Manager.tick')
+    gt = t.cfg()
+    steps = [n for n in gt.nodes if n.kind == 'stmt' and any(r == 'self' for r, _c in pat.method_calls(n.ast, 'processTask'))]
+    idle = pat.test_edge(lambda tt, pol: pol == 'F' and 'gi_running' in src(tt))
+    for n in steps:
+        q = pat.guarded_by(gt, n, idle)
+        chk.ob('h', t.ref, 'a task whose generator is executing right now (tick() called from one of its own steps) is not stepped', q is None, loc(t, n.ast),
+               path=pat.path_lines(q) if q else None, discr='running-generator-not-stepped')
 
 
 def rule_adoption(repo, chk):
